@@ -305,6 +305,10 @@ class AlignmentAffine(HomogFamilyAlignment, Affine):
         # now, the Affine
         optimal_h = self._build_alignment_h_matrix(source, target)
         Affine.__init__(self, optimal_h, copy=False, skip_checks=True)
+        # Affine.__init__ goes through our _set_h_matrix, which re-syncs the
+        # target from the state (the aligned source). Keep the target that
+        # was asked for.
+        self._target = target
 
     @staticmethod
     def _build_alignment_h_matrix(source, target):
